@@ -560,8 +560,9 @@ def run_check(mod, modname, prop, tier, seed):
         violations=len(violations),
         tree_hash=os.environ.get("VF_TREE_HASH", ""),
     )
-    os.makedirs(os.path.join(ROOT, "evidence"), exist_ok=True)
-    with open(os.path.join(ROOT, "evidence", prop + ".json"), "w") as f:
+    evdir = os.environ.get("VF_EVIDENCE_DIR") or os.path.join(ROOT, "evidence")  # redirected only for mutation trials
+    os.makedirs(evdir, exist_ok=True)
+    with open(os.path.join(evdir, prop + ".json"), "w") as f:
         json.dump(ev, f, indent=1, default=str, ensure_ascii=True)
         f.write("\n")
 
